@@ -40,7 +40,10 @@ def client_api_action(r, p=gv.SMALL):
         return ("search", r.choice([None, "", "dc=x"]), r.choice([0, 1, 2]), r.choice([0, 1, 2, 3]), r.choice([0, 5, 1000]), r.choice([0, 60]),
                 r.random() < 0.3, flt, r.choice([None, (), ("cn",), ("*", "+")]), _ctl(r))
     if x < 0.88:
-        return ("extended", r.choice(["1.3.6.1.4.1.1466.20037", "1.2.3", NOTICE_OID]), r.choice([None, b"", b"\x01\x02"]), _ctl(r))
+        name = r.choice(["1.3.6.1.4.1.1466.20037", "1.2.3", NOTICE_OID])
+        if r.random() < 0.08:
+            name = gv.g_lookalike_oid(r, r.choice([NOTICE_OID, "1.3.6.1.4.1.1466.20037"]))
+        return ("extended", name, r.choice([None, b"", b"\x01\x02"]), _ctl(r))
     return ("unbind",)
 
 
@@ -53,6 +56,8 @@ def server_api_action(r, drv: Driver, retired, p=gv.SMALL):
         return ("bind_response", mid, r.choice([None, b"", b"srv"]), code, md, dm, _ctl(r))
     if x < 0.45:
         name = r.choice([None, "1.2.3", NOTICE_OID, "1.3.6.1.4.1.1466", "20036", "1.3.6.1", NOTICE_OID + "0"]) if r.random() < 0.8 else NOTICE_OID
+        if r.random() < 0.12:
+            name = gv.g_lookalike_oid(r, NOTICE_OID)
         return ("extended_response", mid, name, r.choice([None, b"v"]), r.choice([0, 2, 52]), md, dm, _ctl(r))
     if x < 0.6:
         return ("entry", mid, "cn=e", (("cn", (b"e",)),), _ctl(r))
@@ -81,7 +86,7 @@ def crafted_for_client(r, drv: Driver, retired):
         "SearchResultEntry": ("cn=e", (("cn", (b"v",)),)),
         "SearchResultReference": (("ldap://y/",),),
         "SearchResultDone": ((r.choice([0, 4]), "", "", None),),
-        "ExtendedResponse": ((0, "", "", None), r.choice([None, "1.2.3", "1.3.6.1.4.1.1466", "20036", "6.1.4"]), None),
+        "ExtendedResponse": ((0, "", "", None), r.choice([None, "1.2.3", "1.3.6.1.4.1.1466", "20036", "6.1.4", gv.g_lookalike_oid(r, NOTICE_OID)]), None),
     }[kind]
     out = rfc4511.encode((kind, mid, body, ()))
     if r.random() < 0.2:  # two messages in one delivery
@@ -152,13 +157,61 @@ def long_lived_prelude(pair: "Pair", n: int = 300):
     return vio
 
 
+BAD = ["\udc80", "\ud800", "\udfff"]
+
+
+def poison(r: random.Random, action: tuple) -> t.Optional[tuple]:
+    """The same call with a lone surrogate in one text field: it cannot be encoded, so the call must fail having sent nothing."""
+    a = list(action)
+    k = a[0]
+    bad = r.choice(BAD)
+    if k == "bind_simple":
+        i = r.choice([1, 2])
+        a[i] = (a[i] or "") + bad
+    elif k == "bind_sasl":
+        i = r.choice([1, 2])
+        a[i] = (a[i] or "") + bad
+    elif k == "search":
+        if r.random() < 0.5:
+            a[1] = (a[1] or "dc=x") + bad
+        else:
+            a[8] = tuple(a[8] or ()) + ("cn", "a" + bad)
+    elif k == "extended":
+        a[1] = a[1] + bad
+    elif k == "bind_response":
+        i = r.choice([4, 5])
+        a[i] = (a[i] or "") + bad
+    elif k == "extended_response":
+        i = r.choice([2, 5, 6])
+        a[i] = (a[i] or "") + bad
+    elif k == "entry":
+        if r.random() < 0.5:
+            a[2] = a[2] + bad
+        else:
+            a[3] = tuple(a[3]) + (("sn" + bad, (b"v",)),)
+    elif k == "reference":
+        a[2] = tuple(a[2]) + ("ldap://" + bad,)
+    elif k == "done":
+        i = r.choice([3, 4])
+        a[i] = (a[i] or "") + bad
+    else:
+        return None
+    return ("failing", tuple(a))
+
+
 def random_step(r: random.Random, pair: Pair) -> t.Tuple[str, tuple]:
     """Choose the next concrete step for a joint history (includes calls after failures and after closure)."""
     x = r.random()
     if x < 0.30:
-        return "c", client_api_action(r)
+        a = client_api_action(r)
+        if r.random() < 0.06:
+            a = poison(r, a) or a
+        return "c", a
     if x < 0.58:
-        return "s", server_api_action(r, pair.s, pair.retired_s)
+        a = server_api_action(r, pair.s, pair.retired_s)
+        if r.random() < 0.08:
+            a = poison(r, a) or a
+        return "s", a
     if x < 0.72:  # deliver real bytes client -> server
         if pair.c2s:
             k = len(pair.c2s) if r.random() < 0.7 else r.randrange(0, len(pair.c2s) + 1)
